@@ -44,9 +44,11 @@ pub fn batches(prop: &str, tier: &str) -> Vec<Batch> {
         "C05" => {
             let mut v = vec![Batch { label: "history", engine: "cache-sim", params: json!({"mode":"history","universes":3}), runs: if q { 500 } else { 20_000 } }];
             if !q {
-                v.push(Batch { label: "eviction", engine: "cache-sim", params: json!({"mode":"eviction","clauses":10_500,"universes":0}), runs: 64 });
+                v.push(Batch { label: "eviction", engine: "cache-sim", params: json!({"mode":"eviction","clauses":10_500,"universes":0}), runs: 48 });
+                v.push(Batch { label: "eviction-words", engine: "cache-sim", params: json!({"mode":"eviction","clauses":10_500,"universes":0,"distinct_words":true}), runs: 16 });
             } else {
-                v.push(Batch { label: "eviction-small", engine: "cache-sim", params: json!({"mode":"eviction","clauses":10_250}), runs: 2 });
+                v.push(Batch { label: "eviction-small", engine: "cache-sim", params: json!({"mode":"eviction","clauses":10_250}), runs: 1 });
+                v.push(Batch { label: "eviction-words", engine: "cache-sim", params: json!({"mode":"eviction","clauses":10_250,"distinct_words":true}), runs: 1 });
             }
             v
         }
@@ -130,7 +132,7 @@ pub fn def(prop: &str) -> Option<PropDef> {
                 "the reference lints come from the same harper-core (fresh instances); only the position arithmetic, the span->range->edit path and the range->span lookup are independent",
                 "positions inside surrogate pairs are not probed (they are not valid LSP positions)",
             ],
-            must_reach: vec!["c08_positions_probed", "c08_lint_position_pairs", "c08_suggestions_checked", "last_word_checked_nonempty", "c08_probe_after_astral", "c08_probe_on_last_line_without_newline", "c08_probe_crlf"],
+            must_reach: vec!["c08_positions_probed", "c08_lint_position_pairs", "c08_suggestions_checked", "last_word_checked_nonempty", "c08_probe_after_astral", "c08_probe_on_last_line_without_newline", "c08_probe_crlf", "c08_probe_in_multiline_lint"],
             real: vec!["harper-ls pos_conv.rs, diagnostics.rs, document_state.rs, backend.rs (compiled from /repo)", "tower-lsp 0.20", "harper-core and the front-end parsers"],
             stub: vec!["harper-ls main.rs", "tokio runtime", "tokio::fs scheduling (sequential policy)", "the editor (client model with its own UTF-16 line/column arithmetic)"],
             watchdog_secs: 180,
@@ -138,12 +140,12 @@ pub fn def(prop: &str) -> Option<PropDef> {
         "C05" => PropDef {
             id: "C05",
             level: "exploration",
-            rule: "One evaluation = one lint call in a history of 8-40 operations (lint document d in language L with linter s on thread t; set/unset a rule; import words; spawn/retire a thread) over 1-3 long-lived linters of three kinds (bare LintGroup, LintGroup driven like harper-ls's DocumentState, harper_wasm::Linter serving plain text and Markdown), living on a pool of 1-4 real threads of which a baton releases exactly one at a time (the scheduler PRNG chooses the thread of every operation), in a process whose hash universe (foldhash per-hasher seeds, getrandom stream, clock epoch) is a run parameter. Documents are assembled from clauses so that caches are hit at other offsets, in the other language, after a configuration toggle and toggle-back, and (eviction batch) after more than 10 000 distinct clauses. Oracle after every lint: the complete result including order equals that of a freshly built linter of the same kind, dictionary, dialect and configuration on a freshly spawned thread; every history is executed in three hash universes and the per-operation result digests must agree. Non-trivial: at least two lints in the history. Distinct: by hash of (documents, operation/slot sequence).",
+            rule: "One evaluation = one lint call in a history of 8-40 operations (lint document d in language L with linter s on thread t; set/unset a rule; import words; spawn/retire a thread) over 1-3 long-lived linters of three kinds (bare LintGroup, LintGroup driven like harper-ls's DocumentState, harper_wasm::Linter serving plain text and Markdown), living on a pool of 1-4 real threads of which a baton releases exactly one at a time (the scheduler PRNG chooses the thread of every operation), in a process whose hash universe (foldhash per-hasher seeds, getrandom stream, clock epoch) is a run parameter. Documents are assembled from clauses so that caches are hit at other offsets, in the other language, after a configuration toggle and toggle-back, and (eviction batches) after more than 10 000 distinct clauses, in one batch each with a misspelling of its own (the spell checker's word cache overflows too). Oracle after every lint: the complete result including order equals that of a freshly built linter of the same kind, dictionary, dialect and configuration on a freshly spawned thread; every history is executed in three hash universes and the per-operation result digests must agree. Non-trivial: at least two lints in the history. Distinct: by hash of (documents, operation/slot sequence).",
             assumptions: vec![
                 "true parallel execution of two lint calls is not explored: Harper shares no mutable state between threads except lazily initialised statics and thread-locals; the baton runs one thread at a time",
                 "a defect that also occurs in a fresh linter is invisible here (it is not a C05 matter)",
             ],
-            must_reach: vec!["cache_hit_at_other_offset", "cache_hit_other_language", "cache_hit_after_config_toggle", "cache_hit_same_context", "thread_migrated", "threads_spawned", "threads_retired", "linter_rebuilt_for_dict", "config_toggles", "lru_evicted", "histories_compared_across_universes"],
+            must_reach: vec!["cache_hit_at_other_offset", "cache_hit_other_language", "cache_hit_after_config_toggle", "cache_hit_same_context", "thread_migrated", "threads_spawned", "threads_retired", "linter_rebuilt_for_dict", "config_toggles", "lru_evicted", "word_cache_evicted", "histories_compared_across_universes"],
             real: vec!["harper-core LintGroup (chunk cache, hasher), SpellCheck (word cache), Document, thread_local pattern caches, lazy_static dictionaries", "harper_wasm::Linter (native rlib)", "std::thread (real OS threads, one released at a time)"],
             stub: vec!["the thread scheduler (a baton: one thread runs at a time, chosen by the scheduler PRNG)", "process identity (hash universes inside forked children of one zygote)"],
             watchdog_secs: 600,
